@@ -311,13 +311,14 @@ struct C07
 {
     int pending, blockAt, releaseAfter, arriveAt, order, split;
     int closer; // a third connection of the same worker goes away in the very batch in which A becomes writable again
+    int fileAt = -1; // which of A's pending writes is a file (sendfile) instead of a raw buffer; -1: none
 };
 static std::vector<C07> gC07;
 
 static void case_c07(uint64_t idx, vr::Ctx& ctx)
 {
     const C07 c = gC07[idx];
-    std::string desc = std::string(c.closer ? "[third connection closes when A is released] " : "") + "A: " + std::to_string(c.pending) + " pending writes, would-block at write call " + std::to_string(c.blockAt) + " released after " + std::to_string(c.releaseAfter) + " steps; B: request at step " + std::to_string(c.arriveAt) + (c.split ? " (in two reads)" : "") + "; event order " + (c.order ? "B first" : "A first");
+    std::string desc = std::string(c.closer ? "[third connection closes when A is released] " : "") + (c.fileAt >= 0 ? "[A's write " + std::to_string(c.fileAt) + " is a file] " : std::string()) + "A: " + std::to_string(c.pending) + " pending writes, would-block at write call " + std::to_string(c.blockAt) + " released after " + std::to_string(c.releaseAfter) + " steps; B: request at step " + std::to_string(c.arriveAt) + (c.split ? " (in two reads)" : "") + "; event order " + (c.order ? "B first" : "A first");
     ctx.note("c07 " + desc);
     auto handler = std::make_shared<EchoHandler>();
     lp::Loop loop(handler);
@@ -341,7 +342,17 @@ static void case_c07(uint64_t idx, vr::Ctx& ctx)
         std::string dat = content(2 + (i % 2), i) + content(3, i).substr(0, 40);
         expectA += dat;
         int* sp = &settledA[i];
-        loop.transport->asyncWrite(fa, RawBuffer(dat, dat.size())).then([sp](ssize_t) { ++*sp; }, [sp](std::exception_ptr) { *sp += 100; });
+        if (i == c.fileAt)
+        {
+            std::string path = gFileDir + "/s" + std::to_string(getpid()) + "_" + std::to_string(i);
+            FILE* f          = fopen(path.c_str(), "w");
+            fwrite(dat.data(), 1, dat.size(), f);
+            fclose(f);
+            loop.transport->asyncWrite(fa, FileBuffer(path)).then([sp](ssize_t) { ++*sp; }, [sp](std::exception_ptr) { *sp += 100; });
+            unlink(path.c_str()); // (the descriptor stays open inside the FileBuffer)
+        }
+        else
+            loop.transport->asyncWrite(fa, RawBuffer(dat, dat.size())).then([sp](ssize_t) { ++*sp; }, [sp](std::exception_ptr) { *sp += 100; });
     }
     const std::string req = "GET /b HTTP/1.1\r\nHost: h\r\n\r\n";
     int heldSince = -1, arrived = -1, answeredAt = -1;
@@ -429,7 +440,16 @@ int main(int argc, char** argv)
                         for (int o = 0; o < 2; ++o)
                             for (int sp = 0; sp < 2; ++sp)
                                 for (int cl = 0; cl < 2; ++cl)
+                                {
                                     gC07.push_back({ p, i, d, j, o, sp, cl });
+                                    // one of A's pending writes is a file body (first / last of them)
+                                    if (!cl && !sp)
+                                    {
+                                        gC07.push_back({ p, i, d, j, o, sp, cl, 0 });
+                                        if (p > 1)
+                                            gC07.push_back({ p, i, d, j, o, sp, cl, p - 1 });
+                                    }
+                                }
         return vr::run(opt, gC07.size(), case_c07);
     }
     const int nk = sizeof kKinds / sizeof kKinds[0];
